@@ -10,7 +10,7 @@ line-program part of `write::Dwarf::from`, tied to the code by the op `c12-line`
 Every theorem name starts with `line_`.
 -/
 namespace Gimli.Props.C12
-open Gimli Gimli.Line Gimli.WLine Gimli.ConvLineRows
+open Gimli Gimli.Line Gimli.WLine Gimli.ConvLineRows Gimli.Props.C13
 
 
 theorem convertString_ok (strs : Strs) (v : Nat) (tabs tabs' : Tabs) (a : AttrVal) (s : LineStr)
@@ -93,7 +93,7 @@ theorem line_files_preserved (strs : Strs) (st st' : CSt) (f : FileEntry)
           rw [haf] at hadd
           simp only [ofWrite, CRes.bind_ok, CRes.pure_eq, CRes.ok.injEq] at hadd
           subst hadd
-          obtain ⟨⟨ent, he, hen, hed, hei⟩, hpres, _⟩ := Gimli.Props.C13.file_ids_stable _ _ _ _ _ _ haf
+          obtain ⟨⟨ent, he, hen, hed, hei⟩, hpres, _⟩ := file_ids_stable _ _ _ _ _ _ haf
           have hinfo := hei _ rfl
           exact ⟨id, name, ent, rfl, rfl, hname, hform, by omega, he, hen, hed, by rw [hinfo], by rw [hinfo],
             by rw [hinfo], fun s hs => by rw [hinfo]; exact hs1 s hs, fun hs => by rw [hinfo]; exact hs2 hs,
@@ -283,4 +283,110 @@ theorem line_end_op_index_counterexample :
       [.setAddress 0x1000, .copy, .advancePc 1, .endSequence] none) =
       some [.setAddress (some 0x1000), .copy, .endSequence] := by decide
 
+/-! ## rows: from the converted rows to the written program and back -/
+
+/-- the driver loop of `ConvertLineProgram::convert` on a list of events -/
+def applyEvs (m : Mode) : CSt → List RowEv → CRes CSt
+  | st, [] => .ok st
+  | st, ev :: evs => do
+    let st ← applyEv m st ev
+    applyEvs m st evs
+
+/-- events of one converted sequence that starts with a `DW_LNE_set_address`: the first row carries
+the address, the others and the end do not -/
+def seqEvents (a : Nat) (r1 : WRow) (rows : List WRow) (off : Nat) : List RowEv :=
+  RowEv.row (some a) r1 :: (rows.map (RowEv.row none) ++ [RowEv.endSeq none off])
+
+theorem applyEvs_rows (m : Mode) : ∀ (rows : List WRow) (st : CSt) (p' : Prog) (tail : List RowEv),
+    genRows m st.prog rows = .ok p' →
+    applyEvs m st (rows.map (RowEv.row none) ++ tail) = applyEvs m { st with prog := p' } tail := by
+  intro rows
+  induction rows with
+  | nil =>
+    intro st p' tail h
+    simp only [genRows, Out.ok.injEq] at h
+    subst h
+    rfl
+  | cons r rs ih =>
+    intro st p' tail h
+    rw [genRows] at h
+    cases hg : ({ st.prog with row := r } : Prog).generateRow m with
+    | ok p1 =>
+      rw [hg] at h
+      simp only [Out.bind_ok] at h
+      simp only [List.map_cons, List.cons_append, applyEvs, applyEv, hg, ofWrite, CRes.bind_ok, CRes.pure_eq]
+      exact ih { st with prog := p1 } p' tail h
+    | err e => rw [hg] at h; simp at h
+    | panic w => rw [hg] at h; simp at h
+    | diverge => rw [hg] at h; simp at h
+
+/-- the driver loop on the events of one sequence is C13's `writeSequence` on the program -/
+theorem applyEvs_seq (m : Mode) (st : CSt) (a : Nat) (r1 : WRow) (rows : List WRow) (off : Nat) (p' : Prog)
+    (h : writeSequence m st.prog a (r1 :: rows) off = .ok p') :
+    applyEvs m st (seqEvents a r1 rows off) = .ok { st with prog := p' } := by
+  unfold writeSequence at h
+  rw [genRows] at h
+  cases hg : ({ st.prog.setAddress (some a) with row := r1 } : Prog).generateRow m with
+  | ok p1 =>
+    rw [hg] at h
+    simp only [Out.bind_ok] at h
+    cases hr : genRows m p1 rows with
+    | ok p2 =>
+      rw [hr] at h
+      simp only [Out.bind_ok] at h
+      unfold seqEvents
+      simp only [applyEvs, applyEv, hg, ofWrite, CRes.bind_ok, CRes.pure_eq]
+      rw [applyEvs_rows m rows { st with prog := p1 } p2 _ hr]
+      simp only [applyEvs, applyEv, h, ofWrite, CRes.bind_ok, CRes.pure_eq]
+    | err e => rw [hr] at h; simp at h
+    | panic w => rw [hr] at h; simp at h
+    | diverge => rw [hr] at h; simp at h
+  | err e => rw [hg] at h; simp at h
+  | panic w => rw [hg] at h; simp at h
+  | diverge => rw [hg] at h; simp at h
+
+/-- **Rows are preserved — partial: from the converted rows to the written program and back.**
+For a converter state between sequences (the writer's `prev_row`/`row` in their initial state), an
+encoding the writer accepts (`EncOk`), version ≤ 5, address size 1/2/4/8, both build modes: when
+`read_row` hands over the events of one sequence — `SetAddress(a)`, rows `r₁ … rₙ`,
+`EndSequence(off)` — whose rows are legal successors of one another (`ChainOk`/`EndOk`: aligned
+offsets, op_index < max_ops, operation pointer not going backwards, lines < 2^63, addresses inside
+the address size; exactly the conditions that findings C12-L2 and C13-3/4 violate), then the
+driver loop (`set_address`, `generate_row`…, `end_sequence`) succeeds, and **reading the
+instructions it appended (C04's reader) returns exactly `r₁ … rₙ` at `a + offset`, every register
+equal, then the end row at `a + off`**, and reader and writer are back in their initial states.
+By `line_row_registers` each `rᵢ` carries the source row's registers with the file mapped through
+the converted table (`line_files_preserved`), so the rows read back are the source rows.
+
+Missing for the full statement (kept as the differential oracle `rows-differ` of `c12-line`, 28 000
+cases per run, and `Props.C12.line_addresses_preserved` for the address dimension incl.
+tombstones): that the source rows, as `LineRows` returns them, are the converter's relative rows
+shifted by the sequence's `set_address` — the simulation between `LineRows::next_row` and
+`read_row` over all instructions — and that they always satisfy `ChainOk` when no
+`fixed_advance_pc` is unaligned. Where the code really differs: `line_*_counterexample`. -/
+theorem line_rows_preserved_partial (m : Mode) (en : Endian) (format : Format) (addrSize : Nat)
+    (st : CSt) (a : Nat) (r1 : WRow) (rows : List WRow) (off : Nat)
+    (henc : EncOk st.prog.enc) (hv : st.prog.enc.version ≤ 5)
+    (hasz : addrSize = 1 ∨ addrSize = 2 ∨ addrSize = 4 ∨ addrSize = 8)
+    (hprev : st.prog.prevRow = WRow.initial st.prog.enc) (hrow : st.prog.row = WRow.initial st.prog.enc)
+    (ha : a < minTombstone addrSize)
+    (hchain : ChainOk st.prog.enc addrSize a (WRow.initial st.prog.enc) (r1 :: rows))
+    (hend : EndOk st.prog.enc addrSize a (lastRow (WRow.initial st.prog.enc) (r1 :: rows))
+      (lastRow (WRow.initial st.prog.enc) (r1 :: rows)) off) :
+    let h := readerParams en format addrSize st.prog.enc
+    let last := lastRow (WRow.initial st.prog.enc) (r1 :: rows)
+    ∃ st' is, applyEvs m st (seqEvents a r1 rows off) = .ok st' ∧
+      st'.prog.instrs = st.prog.instrs ++ is ∧ st'.files = st.files ∧
+      st'.prog.prevRow = WRow.initial st.prog.enc ∧ st'.prog.row = WRow.initial st.prog.enc ∧
+      st'.prog.inSequence = false ∧
+      ∀ (inSeq : Bool) (rest : List Instr),
+      traceInstrs h (Row.new h) inSeq (is.map (WInstr.toInstr st.prog.enc.version) ++ rest) =
+        (r1 :: rows).map (fun r => Ev.row (rowOf st.prog.enc.version a r)) ++
+          Ev.row { rowOf st.prog.enc.version a last with address := a + off, opIndex := last.opIndex,
+                                                         endSequence := true } ::
+            traceInstrs h (Row.new h) false rest := by
+  intro h last
+  obtain ⟨p', is, hw, hins, hp, hr, hs, htr⟩ :=
+    sequence_roundtrip m en format addrSize st.prog a (r1 :: rows) off henc hv hasz hprev hrow ha hchain hend
+  exact ⟨{ st with prog := p' }, is, applyEvs_seq m st a r1 rows off p' hw, hins, rfl, hp, hr, hs, htr⟩
 end Gimli.Props.C12
